@@ -211,6 +211,31 @@ def run(tier, seed, replay=None):
                                      "opts": {"newline_style": style, "blank_lines_upper_bound": up},
                                      "want": ["lines"],
                                      "_meta": {"name": name, "how": how, "gen": True}})
+        # `converting the style changes nothing but the terminators': the same source under Unix and
+        # under Windows, whole formatter (nested snippet formatting of macro bodies and doc code
+        # included); the two outputs are equal once CR LF is read as LF
+        from . import universe as _u
+        pair_src = [(n, t) for (n, t) in blank_sources()[::3]]
+        pair_src += [(n, t) for (n, t) in _u.boundary_sources()
+                     if n.rsplit("_", 1)[0] in ("gen/macdef", "gen/deepmac", "gen/macstmt", "gen/mdcomment",
+                                                "gen/mlstrarg", "gen/skipattr")
+                     and core.fnv(n.encode()) % (3 if tier == "quick" else 1) == 0]
+        pair_jobs = []
+        for (name, text) in pair_src:
+            for style in ("Unix", "Windows"):
+                pair_jobs.append({"id": len(pair_jobs), "src": text, "want": ["out"],
+                                  "opts": {"newline_style": style, "format_code_in_doc_comments": True}})
+        pres = ucore.run_jobs(pair_jobs, sc)
+        n_pairs = 0
+        for k, (name, text) in enumerate(pair_src):
+            a, b = pres[2 * k], pres[2 * k + 1]
+            if not (a.get("ok") and b.get("ok")) or a.get("out") is None or b.get("out") is None:
+                continue
+            n_pairs += 1
+            if b["out"].replace("\r\n", "\n") != a["out"] or "\r" in a["out"]:
+                v.violation(f"stylepair:{name}",
+                            f"the Windows-style output of {name} differs from the Unix-style output in "
+                            f"more than its terminators", {"unix": a["out"][:3000], "windows": b["out"][:3000]})
         results = ucore.run_jobs([{k: j[k] for k in j if k != "_meta"} for j in jobs], sc)
         wrecs, wmeta = [], []
         skipped = 0
@@ -266,7 +291,7 @@ def run(tier, seed, replay=None):
                    "variants x bounds, formatted in-process; distinct = distinct (file, terminators, "
                    "options) whose run reported no error",
            "newline_records": len(nrecs), "whitespace_records": len(wrecs),
-           "skipped_runs_with_errors": skipped, "obs_states": ostates + wstates, "apalache_vspace_unbounded": apalache,
+           "skipped_runs_with_errors": skipped, "obs_states": ostates + wstates, "apalache_vspace_unbounded": apalache, "style_pairs": n_pairs,
            "exhaustive": False}
     return v.finish("model_checking", cov, [
         "rustc_lexer classifies the emitted text; lines inside macro calls/definitions and after "
